@@ -217,7 +217,20 @@ func tokenizeCapped(t tokenizers.ITokenizer, input string, hasNext int) ([]tk, *
 			sc.Reset()
 			sc.budget = full.budget
 		}
-		t.SetReader(sc)
+		if lateOptions(input) {
+			// for a share of the inputs the caller attaches the reader first and switches the options on afterwards
+			bits := 0
+			for i, on := range []bool{t.SkipUnknown(), t.SkipWhitespaces(), t.SkipComments(), t.SkipEof(), t.MergeWhitespaces(), t.UnifyNumbers(), t.DecodeStrings()} {
+				if on {
+					bits |= 1 << uint(i)
+				}
+			}
+			setOptions(t, 0)
+			t.SetReader(sc)
+			setOptions(t, bits)
+		} else {
+			t.SetReader(sc)
+		}
 		for {
 			for i := 0; i < hasNext; i++ {
 				t.HasNextToken()
@@ -258,6 +271,18 @@ func rescanFirst(input string) int {
 		return 2
 	}
 	return 0
+}
+
+// lateOptions selects, by content, the inputs for which the options are set after the reader is attached.
+func lateOptions(input string) bool {
+	h := len(input) * 13
+	for i := 0; i < len(input); i++ {
+		h = h*37 + int(input[i])
+	}
+	if h < 0 {
+		h = -h
+	}
+	return h%5 == 2
 }
 
 func runesOf(parts []string) string { return strings.Join(parts, "") }
